@@ -101,6 +101,9 @@ pub mod k {
     pub const LINK_MTU_AT: i128 = 66; // time at which link mtu changes
     pub const LINK_MTU2: i128 = 67;
     pub const DROP_MASK_DIR: i128 = 68; // 0 both, 1 only client->server, 2 only server->client
+    pub const FAIR_RUN: i128 = 69; // >0: at most this many consecutive random drops per direction
+    pub const SERVER_EARLY: i128 = 71; // server application opens/writes its own streams before Connected (0.5-RTT data)
+    pub const RECONNECT: i128 = 70; // open this many further client connections, one per drained connection (slot reuse)
 }
 
 pub struct Rng(u64);
@@ -297,6 +300,7 @@ pub struct World {
     conn_counter: usize,
     steps: u64,
     accepted_pairs: Vec<usize>,
+    drop_run: [i128; 2],
 }
 
 fn ecn_code(e: Option<EcnCodepoint>) -> i128 {
@@ -441,6 +445,7 @@ impl World {
             conn_counter: 0,
             steps: 0,
             accepted_pairs: Vec::new(),
+            drop_run: [0, 0],
             p,
         };
         let (cert, key) = load_cert();
@@ -584,10 +589,19 @@ impl World {
         if self.rng.chance(replay + spoof) && self.stored.len() < 64 {
             self.stored.push((src, dst, data.clone(), origin));
         }
-        if masked || self.rng.chance(loss) {
+        let fair = self.p.get(k::FAIR_RUN, 0);
+        let mut lose = self.rng.chance(loss);
+        if lose && fair > 0 && self.drop_run[src_ep.min(1)] >= fair {
+            lose = false; // fair loss: never more than `fair` random drops in a row per direction
+        }
+        if masked || lose {
+            if lose {
+                self.drop_run[src_ep.min(1)] += 1;
+            }
             self.trace.push(vec![9, t, idx as i128, 1, sid, did, size]);
             return;
         }
+        self.drop_run[src_ep.min(1)] = 0;
         let mut copies = 1;
         if dupmask || self.rng.chance(dup) {
             copies = 2 + self.rng.below(2);
@@ -818,6 +832,7 @@ impl World {
         let closer = self.p.get(k::CLOSER, 0);
         let close_at = self.p.get(k::CLOSE_AT, 0);
         let zero_rtt = self.p.get(k::ZERO_RTT, 0);
+        let self_server_early = self.p.get(k::SERVER_EARLY, 0) != 0;
         let self_nbidi = self.p.get(k::NBIDI, 1) as u64;
         let self_nuni = self.p.get(k::NUNI, 0) as u64;
         let self_ndgram = self.p.get(k::NDGRAM, 0) as u64;
@@ -912,8 +927,9 @@ impl World {
                 }
             }
         }
-        let can_start = app.connected || (app.is_client && zero_rtt > 0 && conn.has_0rtt());
-        if !app.connected && can_start {
+        let can_start = app.connected || (app.is_client && zero_rtt > 0 && conn.has_0rtt()) || !app.is_client;
+        let may_open = app.connected || app.is_client || self_server_early;
+        if !app.connected && can_start && app.is_client {
             app.early_started = true;
         }
         if app.warmup {
@@ -933,7 +949,7 @@ impl World {
             app.p_dgram_unblocked = dgram_unblocked;
         } else {
             // open streams
-            if !app.started || avail {
+            if may_open && (!app.started || avail) {
                 app.started = true;
                 while app.want_bidi > 0 {
                     match conn.streams().open(Dir::Bi) {
@@ -1308,6 +1324,8 @@ impl World {
             self.drive_conn(0, chk);
         }
         let mut migrated = 0;
+        let mut reconnect_left = self.p.get(k::RECONNECT, 0);
+        let mut replaced = 0usize;
         let mut keyupd = [false, false];
         let mut rwnd_done = false;
         let mut mtu_changed = false;
@@ -1376,6 +1394,11 @@ impl World {
                     }
                     scfg.transport_config(Arc::new(tcfg));
                     scfg.token_key(quinn_proto_token_key(self.p.get(k::SEED, 1) as u64));
+                    scfg.migration(self.p.get(k::MIGRATION_ALLOWED, 1) != 0);
+                    scfg.time_source(Arc::new(SimTime {
+                        base: std::time::UNIX_EPOCH + Duration::from_secs(1_700_000_000),
+                        now_us: self.now_shared.clone(),
+                    }));
                     self.eps[1].ep.set_server_config(Some(Arc::new(scfg)));
                 }
                 self.trace.push(vec![13, self.now as i128, 6, zero_rtt]);
@@ -1462,6 +1485,16 @@ impl World {
                 }
             }
             self.poke_zombies();
+            // slot reuse: a drained client connection is replaced by a fresh one
+            if reconnect_left > 0 && self.eps[0].zombies.len() > replaced && !self.eps[0].silent {
+                replaced += 1;
+                reconnect_left -= 1;
+                self.connect_client(false);
+                let keys: Vec<usize> = self.eps[0].conns.keys().cloned().collect();
+                if let Some(chk) = keys.last() {
+                    self.drive_conn(0, *chk);
+                }
+            }
         }
         // final summary per connection (live or zombie)
         let t = self.now as i128;
